@@ -195,6 +195,13 @@ where
         );
         self.handles.lock().unwrap()[h] = v;
     }
+    /// Borrows a handle in place. The table never reallocates and the generator makes sure
+    /// nobody else touches the handle meanwhile (the handle stays visible in the final dump).
+    #[allow(clippy::mut_from_ref)]
+    fn borrow(&self, h: usize) -> &mut Handle<S> {
+        let p: *mut Handle<S> = &mut self.handles.lock().unwrap()[h];
+        unsafe { &mut *p }
+    }
     fn container(&self, c: usize) -> &'static ArcSwapAny<T, S> {
         self.containers.lock().unwrap()[c].expect("container gone")
     }
@@ -218,13 +225,12 @@ where
                 format!("O {}", a)
             }
             Cmd::Clone(h, h2) => {
-                let src = self.take(*h);
-                let v: T = match &src {
+                let src = self.borrow(*h);
+                let v: T = match src {
                     Handle::Owned(v) => v.clone(),
                     Handle::Guard(g) => T::clone(g),
                     _ => panic!("harness: clone of a bad handle"),
                 };
-                self.put(*h, src);
                 let a = addr_of(&v);
                 self.put(*h2, Handle::Owned(v));
                 format!("O {}", a)
@@ -272,16 +278,11 @@ where
                 let cs = self.container(*c);
                 let g = match cur {
                     Src::Null => cs.compare_and_swap(&None::<VPtr>, new),
-                    Src::Handle(h) => {
-                        let hv = self.take(*h);
-                        let g = match &hv {
-                            Handle::Owned(v) => cs.compare_and_swap(v, new),
-                            Handle::Guard(gd) => cs.compare_and_swap(&**gd, new),
-                            _ => panic!("harness: cas current is a bad handle"),
-                        };
-                        self.put(*h, hv);
-                        g
-                    }
+                    Src::Handle(h) => match self.borrow(*h) {
+                        Handle::Owned(v) => cs.compare_and_swap(&*v, new),
+                        Handle::Guard(gd) => cs.compare_and_swap(&**gd, new),
+                        _ => panic!("harness: cas current is a bad handle"),
+                    },
                 };
                 let a = addr_of(&g);
                 self.put(*h2, Handle::Guard(g));
@@ -321,12 +322,10 @@ where
                 "O ?".into()
             }
             Cmd::CacheLoad(k) => {
-                let mut cache = match self.take(*k) {
-                    Handle::Cache(c) => c,
+                let a = match self.borrow(*k) {
+                    Handle::Cache(cache) => addr_of(cache.load()),
                     _ => panic!("harness: cacheload of a non-cache"),
                 };
-                let a = addr_of(cache.load());
-                self.put(*k, Handle::Cache(cache));
                 format!("O {}", a)
             }
             Cmd::Move(h, h2) => {
@@ -566,6 +565,7 @@ where
                 rt::register_thread(t);
                 for (k, cmd) in threads[t].iter().enumerate() {
                     yield_point(t, Pending::Cmd(k));
+                    with_world(|w| w.cur_cmd[t] = k);
                     log_line(format!("{} CMD {}", t, k));
                     let ret = tables.exec(cmd);
                     log_line(format!(". RET {} {}", k, ret));
@@ -603,6 +603,11 @@ where
     let mut step_no: usize = 0;
     // script policy: "script:<t>x<n>,<t>x<n>,..." = run thread t for n steps (0: until it
     // blocks or finishes), then the next entry; afterwards the lowest enabled thread.
+    let (policy_main, solo): (String, Option<usize>) = match policy.split_once(";solo=") {
+        Some((a, b)) => (a.to_string(), Some(b.parse().unwrap())),
+        None => (policy.clone(), None),
+    };
+    let policy = policy_main;
     let script: Vec<(usize, u64)> = match policy.strip_prefix("script:") {
         Some(sp) => sp
             .split(',')
@@ -617,6 +622,8 @@ where
     let is_script = policy.starts_with("script:");
     let mut sidx = 0usize;
     let mut sused = 0u64;
+    let mut solo_cmd: Option<usize> = None;
+    let mut solo_steps = 0u64;
     // pct: random priorities, changed at a few random points
     let mut prio: Vec<u64> = (0..nthreads).map(|_| rng.next()).collect();
     let change_every = 10 + rng.below(40);
@@ -680,7 +687,41 @@ where
                             sidx += 1;
                             sused = 0;
                         }
-                        pick.unwrap_or(enabled[0])
+                        match (pick, solo) {
+                            (Some(t), _) => t,
+                            (None, None) => enabled[0],
+                            (None, Some(v)) => {
+                                // solo phase: only thread v runs, until its current command is done
+                                let done = match (&w.parked[v], solo_cmd) {
+                                    (Some(Pending::Cmd(k)), Some(k0)) => *k != k0,
+                                    (Some(Pending::Exit), _) => true,
+                                    (None, _) => true,
+                                    _ => false,
+                                };
+                                if solo_cmd.is_none() {
+                                    solo_cmd = Some(match &w.parked[v] {
+                                        Some(Pending::Cmd(k)) => *k,
+                                        _ => w.cur_cmd[v],
+                                    });
+                                }
+                                if done || !enabled.contains(&v) {
+                                    if !done {
+                                        w.log.push(format!(". SOLO-BLOCKED thread {} cannot proceed alone", v));
+                                    } else {
+                                        w.log.push(". SOLO-DONE".into());
+                                    }
+                                    drop(g);
+                                    dump_and_exit(if done { 0 } else { 5 });
+                                }
+                                solo_steps += 1;
+                                if solo_steps > 3000 {
+                                    w.log.push(format!(". SOLO-LIMIT thread {} did not finish its operation in 3000 own steps running alone", v));
+                                    drop(g);
+                                    dump_and_exit(5);
+                                }
+                                v
+                            }
+                        }
                     }
                     "pct" => {
                         if step_no as u64 % change_every == 0 {
